@@ -14,7 +14,8 @@ import MithrilModel.Handlers.C11
   grounding of the abstraction of `Prover.lean` ("a tree is named by its ordered leaves"); at byte level the
   leaves of a block-range tree are raw `Tx/…` / `Block/…` strings of VARIABLE length, for which root injectivity
   is false for every hash (`C12.C12_raw_leaves_note`), so no byte-level version exists without a hypothesis on
-  the leaf format.
+  the leaf format. Repaired for the client side: `C11_set_committed_witness(_sized)` (byte level, no hypothesis
+  on the hash, named coincidences).
 * **F2 (trivially true disjunct for the real digest)** `C11_client_match_binds`, `C11_client_match_values`
   conclude `… ∨ ∃ x y : List Char, x ≠ y ∧ Hc x = Hc y` for `Hc : List Char → β`. For EVERY finite digest
   type `β` (SHA-256 values) the disjunct is true outright (`collision_of_finite_digest`): at the intended
@@ -76,6 +77,40 @@ example : (∀ a b c d, C09.pairM a b = C09.pairM c d → a = c ∧ b = d) ∧
   intro a ha
   simp only [List.mem_cons, List.mem_nil_iff, or_false] at ha
   exact small_not_merge (by omega)
+
+/-- **repaired `C11_set_committed`, byte level, no hypothesis on the hash**: every reported item leaf of an
+accepted response is the value of a sub-tree of the tree the single returned root commits to, or a named
+coincidence between the nested verifier's log (`Vacuity.C09.InMapLog`) and the tree's log occurred -/
+theorem C11_set_committed_witness (H : StmBatch.Bytes → StmBatch.Bytes)
+    (parts : List (List StmBatch.Bytes × MapProof StmBatch.Bytes)) (root : StmBatch.Bytes)
+    (h : verifyLegacy (bmerge H) parts = .ok root) (t : ExprTree.E StmBatch.Bytes) (hr : root = tval H t) :
+    ∀ part ∈ parts, ∀ l ∈ part.1, (∃ s ∈ ExprTree.subtrees t, l = tval H s) ∨ ExplM H part.2 t := by
+  intro part hp l hl
+  obtain ⟨hv, hroot, hc⟩ := (verifyLegacy_sound (bmerge H) parts root h).2 part hp
+  exact C09_map_exec_sound_witness H part.2 l hv (hc l hl) t (by rw [hroot, hr])
+
+/-- … with a 32-byte `H` and leaves (committed and reported) of other lengths: every reported item leaf IS a
+committed leaf, or two different logged strings collide, or a logged concatenation splits at two points -/
+theorem C11_set_committed_witness_sized (H : StmBatch.Bytes → StmBatch.Bytes) (hH : ∀ x, (H x).length = 32)
+    (parts : List (List StmBatch.Bytes × MapProof StmBatch.Bytes)) (root : StmBatch.Bytes)
+    (h : verifyLegacy (bmerge H) parts = .ok root) (t : ExprTree.E StmBatch.Bytes) (hr : root = tval H t)
+    (hT : ∀ a ∈ ExprTree.leaves t, a.length ≠ 32) :
+    ∀ part ∈ parts, ∀ l ∈ part.1, l.length ≠ 32 → l ∈ ExprTree.leaves t ∨
+      (∃ a, InMapLog H part.2 a ∧ ∃ b ∈ tlog H t, a ≠ b ∧ H a = H b) ∨
+      (∃ pq, InMapPairs H part.2 pq ∧ ∃ q ∈ tpairs H t, pq.1 ++ pq.2 = q.1 ++ q.2 ∧ pq.1.length ≠ q.1.length) := by
+  intro part hp l hl hx
+  obtain ⟨hv, hroot, hc⟩ := (verifyLegacy_sound (bmerge H) parts root h).2 part hp
+  exact C09_map_exec_sound_witness_sized H hH part.2 l hv (hc l hl) t (by rw [hroot, hr]) hT hx
+
+/-- **all hypotheses of the repaired theorem at once**: the accepted nested byte-level proof of
+`Vacuity.C09.sat_map_witness` as a one-part response -/
+example : (∀ x, (hN x).length = 32) ∧ verifyLegacy (bmerge hN) [([a1], mapN)] = .ok (tval hN tN) ∧
+    (∀ a ∈ ExprTree.leaves tN, a.length ≠ 32) ∧ a1.length ≠ 32 ∧ ¬ ExplM hN mapN tN := by
+  have hs := sat_map_witness
+  have sv : setVerify (bmerge hN) [a1] mapN = true := by
+    simp [setVerify, hs.2.1, hs.2.2.1]
+  refine ⟨hs.1, ?_, hs.2.2.2.2.2.1, hs.2.2.2.2.2.2.1, hs.2.2.2.2.2.2.2⟩
+  simp [verifyLegacy, rootsLoop, sv, hs.2.2.2.2.1]
 
 /-! ## F2 -/
 
